@@ -254,7 +254,7 @@ def l3_spec(rng, kind_hint=None):
                 closed=rng.choice(["right", "left"]), auto=rng.random() < 0.4, npatch=rng.choice([2, 3, 4, 5]),
                 nscales=rng.choice([1, 1, 2]), rweight=rng.choice([None, None, None, -1.0, 0.5]), resolution=rng.choice([None, 3, 10]),
                 weights=rng.random() < 0.6, count_rr=rng.random() < 0.5, rands=rng.choice(["both", "unk", "ref"]),
-                dseed=rng.randrange(10 ** 6))
+                prior=rng.random() < 0.25, dseed=rng.randrange(10 ** 6))
 
 
 def run_l3_case(ctx, spec, cid, terms, metas):
@@ -307,10 +307,18 @@ def run_l3_case(ctx, spec, cid, terms, metas):
     else:
         ref_n, unk_n, ref_s, unk_s = rng.choice([12, 24]), rng.choice([10, 20]), rng.choice([tight, wide]), rng.choice([tight, wide])
     cats = {}
+    # an earlier measurement on the same caches with the other closed side / no weighting: the counts
+    # must not depend on what was cached before (objects sit exactly on bin edges)
+    prior_cfg = None
+    if spec.get("prior"):
+        prior_cfg = yaw.Configuration.create(rmin=rmins, rmax=rmaxs, unit=unit, edges=edges,
+                                             closed="left" if spec["closed"] == "right" else "right", max_workers=1)
     try:
         if spec["auto"]:
             cats["data"] = make_catalog(ctx, "data", *sample(ref_n, ref_s, True), centers)
             cats["rand"] = make_catalog(ctx, "rand", *sample(unk_n, unk_s, True), centers)
+            if prior_cfg is not None:
+                yaw.autocorrelate(prior_cfg, cats["data"], cats["rand"], count_rr=False, max_workers=1)
             res = yaw.autocorrelate(cfg, cats["data"], cats["rand"], count_rr=spec["count_rr"], max_workers=1)
             kinds = [("dd", "data", "data", True, True), ("dr", "data", "rand", False, True)]
             if spec["count_rr"]:
@@ -325,6 +333,8 @@ def run_l3_case(ctx, spec, cid, terms, metas):
             if spec["rands"] in ("both", "ref"):
                 cats["ref_rand"] = make_catalog(ctx, "ref_rand", *sample(ref_n, ref_s, True), centers)
                 kw["ref_rand"] = cats["ref_rand"]
+            if prior_cfg is not None:
+                yaw.crosscorrelate(prior_cfg, cats["ref"], cats["unk"], max_workers=1, **kw)
             res = yaw.crosscorrelate(cfg, cats["ref"], cats["unk"], max_workers=1, **kw)
             kinds = [("dd", "ref", "unk", False, False)]
             if "unk_rand" in cats:
@@ -474,6 +484,12 @@ def run_l3(ctx):
                 # physical scales beyond the turnover of the angular diameter distance
                 s.update(zmin=2.0, zmax=6.0, nbins=3, unit="Mpc", spacing_f=1.12, spreads=(0.02, 0.02), sizes=(15, 15))
             specs.append(s)
+    # deterministic: a measurement with the other closed side precedes the observed one
+    for auto in (False, True):
+        s = l3_spec(prng, "plain")
+        s.update(auto=auto, rweight=None, prior=True, nbins=2, npatch=3, unit="arcmin", zmin=0.2, zmax=0.6, spacing_f=0.8,
+                 spreads=(0.3, 0.3), sizes=(18, 18))
+        specs.append(s)
     for cid, spec in enumerate(specs):
         try:
             run_l3_case(ctx, spec, cid, terms, metas)
